@@ -111,12 +111,9 @@ def render(cfg: dict, layer: Layer, view: View) -> Image:
                              ("header_version", 24, 4, "version"), ("max_table_entries", 28, 4, "count"),
                              ("block_size", 32, 4, "size"), ("checksum", 36, 4, "int")]:
             img.field("vhd.dyn." + n, name, hdr_off + off, w, ">", k)
-        bat = []
-        for u in range(nblocks):
-            if layer.ustate(u) == "unalloc":
-                bat.append(0xFFFFFFFF)
-            else:
-                bat.append((data_off + slots[u] * stride) // 512)
+        bat = [0xFFFFFFFF] * nblocks
+        for u in need:
+            bat[u] = (data_off + slots[u] * stride) // 512
         f.write(bat_off, struct.pack(">%dI" % nblocks, *bat).ljust(bat_bytes, b"\xff"))
         img.field("vhd.bat", name, bat_off, 4 * nblocks, ">", "table")
         for i in range(min(nblocks, 4)):
